@@ -26,7 +26,7 @@ from hypothesis import strategies as st
 from vlib import pyscan, wraps
 from vlib.runner import Failure, Spec
 
-NAMES = ['f', 'g', 'insert', 'at', 'print', 'update']
+NAMES = ['f', 'g', 'insert', 'at', 'print', 'update', 'pass', 'in', 'html', 'svg', 'is']
 ARGS = ['x', 'y', 'key', 'value', 'j', 'n']
 TYPES = ['int', 'double', 'string', 'size_t', 'const gtsam::Pose3&', 'bool']
 SPECIAL = ['"', "'", '\\', '\n', '\t', '\r', '\x85', '\xa0', '\xad', '\x07', '\x1b', '??/', '%',
@@ -85,6 +85,11 @@ def cases(draw, tier):
                 continue  # undocumented method
             extra = draw(st.integers(0, 2))
             params = [{'declname': a, 'defval': False} for a in m['args']]
+            if params and draw(st.integers(0, 2)) == 0:
+                # the interface lists optional parameters too: the last nd of them have defaults
+                nd = draw(st.integers(1, len(params)))
+                for p_ in params[len(params) - nd:]:
+                    p_['defval'] = True
             for e in range(extra):
                 params.append({'declname': 'opt%d' % e, 'defval': True})
             if params and draw(st.integers(0, 5)) == 0:
@@ -333,7 +338,8 @@ def check(case):
             return [Failure('C17.isolation', '%d method bindings, expected %d' % (
                 len(bindings), len(want)))]
         stripped = doc
-        for call, md, ext in zip(bindings, want, texts):
+        wrapped = [m for c in case['classes'] for m in ordered(c)]
+        for call, md, ext, wm in zip(bindings, want, texts, wrapped):
             if call.doc is None:
                 out.append(Failure('C17.selection', 'binding %s has no docstring literal' %
                                    call.pyname))
@@ -369,6 +375,19 @@ def check(case):
                     out.append(Failure('C17.selection', '%s(%s) carries the documentation %s, '
                                        'expected %s' % (call.pyname, ','.join(
                                            a.name for a in call.pyargs), markers, exp_markers)))
+                elif md['paramdocs']:
+                    # the member's documentation includes what it says about each parameter
+                    # the binding has
+                    for p_ in md['params']:
+                        if p_.get('use_defname') or p_['declname'] not in wm['args']:
+                            continue
+                        line = '%s: about %s' % (p_['declname'], p_['declname'])
+                        if line not in dtext:
+                            out.append(Failure('C17.content', '%s(%s): the documentation of '
+                                               'parameter %s is missing from %r' % (
+                                                   call.pyname, ','.join(wm['args']),
+                                                   p_['declname'], dtext[:120])))
+                            break
             if isinstance(ext, Exception):
                 pass
             elif decoded != ext.encode('utf-8', 'surrogatepass') and \
